@@ -38,6 +38,24 @@ MUTATIONS += [
  dict(name="work-stop-hook-skipped-on-timeout", props=["C13"], edits=[("iv_work.c", "\t} else {\n\t\tiv_list_del_init(&thr->list);\n\t\t__iv_work_thread_die(thr);\n\t}", "\t} else {\n\t\tvoid (*ts)(void *) = pool->thread_stop;\n\t\tiv_list_del_init(&thr->list);\n\t\tpool->thread_stop = NULL;\n\t\t__iv_work_thread_die(thr);\n\t\tpool->thread_stop = ts;\n\t}")]),
 ]
 
+MUTATIONS += [
+ dict(name="sig-no-stop-at-exclusive", props=["C10"], benign=True, edits=[("iv_signal.c", "\t\tif (is->flags & IV_SIGNAL_FLAG_EXCLUSIVE)\n\t\t\tbreak;\n\n\t\tan = iv_avl_tree_next(an);", "\t\tan = iv_avl_tree_next(an);")]),
+ dict(name="sig-no-handoff", props=["C10"], edits=[("iv_signal.c", "\t} else if ((this->flags & IV_SIGNAL_FLAG_EXCLUSIVE) && this->active) {\n\t\t__iv_signal_do_wake(iv_signal_tree(this), this->signum);\n\t}", "\t}")]),
+ dict(name="sig-dfl-while-interests", props=["C10"], edits=[("iv_signal.c", "\tif (!--total_num_interests[this->signum]) {", "\tif (--total_num_interests[this->signum] <= 1) {")]),
+ dict(name="sig-no-owner-pid-test", props=["C10"], edits=[("iv_signal.c", "\tif (sig_owner_pid == 0 || sig_owner_pid != getpid())\n\t\treturn;\n", "")]),
+ dict(name="sig-thread-set-not-first", props=["C10"], edits=[("iv_signal.c", "\tif (tinfo == NULL || !__iv_signal_do_wake(&tinfo->thr_sigs, signum)) {", "\tif (1) {")]),
+ dict(name="sig-wake-only-first", props=["C10"], edits=[("iv_signal.c", "\t\twoken++;\n\n\t\tif (is->flags & IV_SIGNAL_FLAG_EXCLUSIVE)\n\t\t\tbreak;", "\t\twoken++;\n\n\t\tif (woken)\n\t\t\tbreak;")]),
+ dict(name="wait-fork-outside-lock", props=["C11"], edits=[("iv_wait.c", "\t___mutex_lock(&iv_wait_lock);\n\n\tpid = fork();\n\tif (pid < 0) {\n\t\t___mutex_unlock(&iv_wait_lock);", "\tpid = fork();\n\t___mutex_lock(&iv_wait_lock);\n\tif (pid < 0) {\n\t\t___mutex_unlock(&iv_wait_lock);")]),
+ dict(name="wait-no-dead-flag", props=["C11"], edits=[("iv_wait.c", "\t\t\tp->flags = IV_WAIT_STATUS_DEAD;\n", "")]),
+ dict(name="wait-kill-ignores-dead", props=["C11", "C19"], edits=[("iv_wait.c", "\tif (!(this->flags & IV_WAIT_STATUS_DEAD))\n\t\tret = kill(this->pid, sig);\n\telse\n\t\tret = -ESRCH;", "\tret = kill(this->pid, sig);")]),
+ dict(name="wait-deliver-after-unreg", props=["C11", "C01"], edits=[("iv_wait.c", "\t\tif (tinfo->handled_wait_interest != NULL) {", "\t\tif (1) {")]),
+ dict(name="wait-drop-nonterminal", props=["C11"], edits=[("iv_wait.c", "\t\tif (p != NULL) {\n\t\t\tiv_list_add_tail(&we->list, &p->events_pending);", "\t\tif (p != NULL && iv_wait_status_dead(status)) {\n\t\t\tiv_list_add_tail(&we->list, &p->events_pending);")]),
+ dict(name="popen-sigkill-first", props=["C19"], edits=[("iv_popen.c", "(ch->num_kills++ < MAX_SIGTERM_COUNT) ? SIGTERM : SIGKILL", "(ch->num_kills++ < MAX_SIGTERM_COUNT) ? SIGKILL : SIGTERM")]),
+ dict(name="popen-no-rearm", props=["C19"], edits=[("iv_popen.c", "\tch->signal_timer.expires.tv_sec += SIGNAL_INTERVAL;\n\tiv_timer_register(&ch->signal_timer);\n}", "\tch->signal_timer.expires.tv_sec += SIGNAL_INTERVAL;\n}")]),
+ dict(name="popen-interval-short", props=["C19"], edits=[("iv_popen.c", "#define SIGNAL_INTERVAL\t\t5", "#define SIGNAL_INTERVAL\t\t4")]),
+ dict(name="popen-timer-leak-on-exit", props=["C19"], edits=[("iv_popen.c", "\telse\n\t\tiv_timer_unregister(&ch->signal_timer);\n", "\n")]),
+]
+
 # mutation lists contributed per subsystem
 import glob as _glob, importlib.util as _iu, os as _os
 for _f in sorted(_glob.glob(_os.path.join(_os.path.dirname(_os.path.abspath(__file__)), "mutations_c*.py"))):
